@@ -128,6 +128,14 @@ void profile_make_cfg(const std::string &prof, uint64_t seed, RunCfg &c) {
     { std::string n; for (int i = 0; i < 60; i++) n += "\\065\\066."; n += "ex1.test"; c.names.push_back(n); }   // text > 255, wire fits
     { std::string n; for (int i = 0; i < 3; i++) n += std::string(60, 'a' + i) + "."; n += std::string(50, 'q'); c.names.push_back(n); }  // near the 255 limit with search domains
     c.names.push_back("h\\.dot");   // escaped dot, single label for the search logic
+    // escaped names whose text form fits 255 characters on its own but not once a search domain is appended
+    for (int k = 0; k < 3; k++) {
+      int labels = 22 + (int)r.below(6);
+      std::string n;
+      for (int i = 0; i < labels; i++) n += "\\065\\066.";
+      n += "x";
+      c.names.push_back(n);
+    }
     if (r.chance(0.5)) c.sock_create_cb = 1 + (int)r.below(2);
     if (r.chance(0.3)) c.sock_config_cb = 1 + (int)r.below(2);
   }
